@@ -552,7 +552,6 @@ func constIntOfPkg(p *Program, pkgPath, name string) (int64, bool) {
 	return 0, false
 }
 
-
 // carries: v is computed from src, possibly by way of a struct literal that holds it in a field.
 func carries(v, src ssa.Value, depth int) bool {
 	if v == nil || depth > 6 {
